@@ -292,8 +292,10 @@ EnvInt(env, n) == env[n].v[1][2]       \* integer value of a bounded-integer inp
 (* denotation (of ANNOTATED terms) *)
 
 RECURSIVE AFoldSeq(_, _)
-AFoldSeq(op, s) ==
-  IF Len(s) = 1 THEN s[1] ELSE Pointwise2(op, AFoldSeq(op, SubSeq(s, 1, Len(s) - 1)), s[Len(s)])
+AFoldSeq(op, s) ==   \* balanced fold of arrays with an associative op
+  IF Len(s) = 1 THEN s[1]
+  ELSE LET m == Len(s) \div 2 IN
+       Pointwise2(op, AFoldSeq(op, SubSeq(s, 1, m)), AFoldSeq(op, SubSeq(s, m + 1, Len(s))))
 
 APower(op, a, n) == [sh |-> a.sh, v |-> [k \in 1..Len(a.v) |-> OpPower(op, a.v[k], n)]]
 
